@@ -432,5 +432,50 @@ func extractSites(repo string) ([]string, error) {
 	}
 	sort.Strings(sites)
 	_ = token.NoPos
-	return sites, nil
+	// regenerated fact: the values of every package-level `actionName` / type map literal (map[string]int32) of the loaded
+	// packages - ExecTypeBase.ActionName scans such a map for a value, which is order-independent iff the values are distinct
+	var maps []string
+	for _, p := range pkgs {
+		for _, f := range p.Syntax {
+			for _, d := range f.Decls {
+				gd, ok := d.(*ast.GenDecl)
+				if !ok || gd.Tok != token.VAR {
+					continue
+				}
+				for _, sp := range gd.Specs {
+					vs, ok := sp.(*ast.ValueSpec)
+					if !ok {
+						continue
+					}
+					for i, name := range vs.Names {
+						if i >= len(vs.Values) {
+							continue
+						}
+						cl, ok := vs.Values[i].(*ast.CompositeLit)
+						if !ok {
+							continue
+						}
+						mt, ok := p.TypesInfo.TypeOf(cl).Underlying().(*types.Map)
+						if !ok || mt.Key().String() != "string" || mt.Elem().String() != "int32" {
+							continue
+						}
+						var vals []string
+						for _, el := range cl.Elts {
+							if kv, ok := el.(*ast.KeyValueExpr); ok {
+								if tv, ok := p.TypesInfo.Types[kv.Value]; ok && tv.Value != nil {
+									vals = append(vals, tv.Value.ExactString())
+								} else {
+									vals = append(vals, "?")
+								}
+							}
+						}
+						rel, _ := filepath.Rel(repo, p.Fset.Position(name.Pos()).Filename)
+						maps = append(maps, fmt.Sprintf("actionmap %s %s %s", rel, name.Name, strings.Join(vals, ",")))
+					}
+				}
+			}
+		}
+	}
+	sort.Strings(maps)
+	return append(sites, maps...), nil
 }
